@@ -46,8 +46,10 @@ BIAS_Q = {
 }
 
 
-def make_layer(kind, wq, bq, name, units=3):
+def make_layer(kind, wq, bq, name, units=3, act=None):
   kw = dict(kernel_quantizer=WEIGHT_Q[wq][0](), name=name)
+  if act:
+    kw["activation"] = act
   if BIAS_Q[bq] is None:
     kw["use_bias"] = False
   else:
@@ -101,7 +103,11 @@ def main():
         meta["pass"] = 1
         x = {"dense": lambda t: L.Flatten(name="pt")(t), "conv1d": lambda t: L.Reshape(shape, name="pt")(t)}.get(
             kind, lambda t: L.MaxPooling2D((1, 1), name="pt")(t))(x)
-      lays = [make_layer(kind, wq, bq, "l1")]
+      # (a third of the two-layer models: l1 ends in a plain function activation; its outputs feed l2 directly)
+      plain_act = "relu" if depth == 2 and rnd.random() < 0.33 else None
+      if plain_act:
+        meta["l1_act"] = plain_act
+      lays = [make_layer(kind, wq, bq, "l1", act=plain_act)]
       x = lays[0](x)
       if depth == 2:
         if kind == "dense":
@@ -270,6 +276,26 @@ def main():
                        "size": int(sizes["l1"]), "obs": dy(float(np.max(np.abs(pre)))), "range": [0.0, 1.875]})
       except Exception as e:
         errors.append({"k": "estimator_raises", "meta": meta, "pattern": "dm", "exc": repr(e)[:200]})
+  # stated input ranges that lie on one side of zero, bias of either sign, weights of mixed sign: the observed extreme is
+  # taken over all corner inputs of the range
+  if shard == 4 % nshards:
+    for t, (lo, hi, bias) in enumerate(((2.0, 3.0, -1.75), (2.0, 3.0, 1.75), (0.5, 3.5, -3.0), (1.0, 1.5, 2.5), (2.0, 3.0, -3.75))):
+      meta = {"kind": "dense_onesided", "wq": "bits5i2", "iq": "bits6", "bq": "bits8i4", "depth": 1}
+      try:
+        i = L.Input((3,))
+        lay = QDense(2, kernel_quantizer=Q.quantized_bits(5, 2, 1, alpha=1.0), bias_quantizer=Q.quantized_bits(8, 4, 1, alpha=1.0), name="l1")
+        model = tf.keras.Model(i, lay(i))
+        k = np.array([[1.75, -1.5], [-0.75, 1.25], [1.0, 1.75]], dtype=np.float32)
+        if t == 4:       # all weights positive, a small negative bias: the true extreme 3 * 3 - 0.75 sits just above 2^3
+          k, bias = np.ones((3, 2), dtype=np.float32), -0.75
+        lay.set_weights([k, np.array([bias, bias if t == 4 else -bias], dtype=np.float32)])    # (one size per layer: the largest channel)
+        corners = np.array(list(itertools.product((lo, hi), repeat=3)), dtype=np.float32)
+        pre = model.predict(corners, verbose=0)
+        sizes = estimate.analyze_accumulator(model, {"l1": (lo, hi)})
+        events.append({"k": "estimate", "meta": meta, "pattern": "onesided%d" % t, "layer": "l1", "cls": "QDense", "size": int(sizes["l1"]),
+                       "obs": dy(float(np.max(np.abs(pre)))), "range": [lo, hi], "hasb": 1})
+      except Exception as e:
+        errors.append({"k": "estimator_raises", "meta": meta, "pattern": "onesided", "exc": repr(e)[:200]})
   # a batch-norm FOLDED layer: the estimator has to size the folded kernel / bias (what the layer computes at inference),
   # not the raw kernel variable
   if shard == 3 % nshards:
